@@ -71,7 +71,7 @@ def configs(tier):
         for ns in sizes:
             for meas in ("isi", "spike", "sync"):
                 yield dict(name="e2e-%s-%s-%s" % (be, meas, "".join(map(str, ns))), what="e2e", backend=be, meas=meas,
-                           ns=list(ns), fork=(meas == "spike"), validate=3, cost=50 * 8 ** sum(ns),
+                           ns=list(ns), fork=(meas in ("spike", "isi")), validate=3, cost=50 * 8 ** sum(ns),
                            split_forks=(7 if sum(ns) >= 3 else None))
 
 
